@@ -47,7 +47,7 @@ def random_family(seed, count, shapes=((3, 5), (3, 6), (4, 6))):
     while len(out) < count and tries < 1000:
         tries += 1
         r, n = shapes[len(out) % len(shapes)]
-        cols = [sorted(rnd.sample(range(r), rnd.randint(1, min(3, r)))) for _ in range(n)]
+        cols = [sorted(rnd.sample(range(r), rnd.choice([1, 1, 2, 2, 2, 3]) if r >= 3 else rnd.randint(1, 2))) for _ in range(n)]
         rows = [[j for j in range(n) if i in cols[j]] for i in range(r)]
         if any(len(rw) < 2 for rw in rows):
             continue
